@@ -162,6 +162,7 @@ def recurring_case(draw, brokers):
     case = {"broker": broker, "seed": draw(st.integers(0, 2**16)), "converter": "basic", "actors": actors,
             "policy": {"kind": "table", "values": draw(st.lists(st.sampled_from([0.0, 0.3, 1.0, 2.5]), min_size=1, max_size=3))},
             "worker": {"tasks_limit": tl}, "jobs": jobs}
+    case["tz"] = draw(st.sampled_from([None, None, "EST5", "IST-5:30", "NZT-13"]))  # host time zone: repid keeps naive local datetimes
     if broker != "mem":
         case["lat"] = draw(st.lists(st.sampled_from([0.0, 0.001, 0.003]), max_size=20))
     return gen.finalize(case)
